@@ -6,4 +6,6 @@ CONSTANTS Tok = {"e","dot","dd","ipfs","ipns","ipld","IPFS","cidV0","cidV1b32","
           LenUri = 2
           LenName = 2
           LenNameW = 1
-INVARIANTS Idempotent NoDots PrintedIsCanonical SameRootCid MutableHasNoCid UriEqualsPath NameRoundTrip BinaryLaws TrailingSlashKept
+          LenSess = 3
+          LenOps = 2
+INVARIANTS Idempotent NoDots PrintedIsCanonical SameRootCid MutableHasNoCid UriEqualsPath NameRoundTrip BinaryLaws TrailingSlashKept ValueSemantics DerivedLaws NameValueLaws
